@@ -19,7 +19,7 @@ import elementpath.aliases as ta
 
 from elementpath.namespaces import XML_ID, XML_LANG
 from elementpath.datatypes import AnyURI, Float, DayTimeDuration, YearMonthDuration, \
-    StringProxy, AnyAtomicType, Duration
+    StringProxy, AnyAtomicType, Duration, UntypedAtomic
 from elementpath.helpers import get_double
 from elementpath.xpath_nodes import XPathNode, ElementNode, TextNode, CommentNode, \
     ProcessingInstructionNode, DocumentNode, EtreeElementNode
@@ -417,9 +417,14 @@ def evaluate__sum(self: XPathFunction, context: ta.ContextType = None) -> ta.One
     xsd_version = self.parser.xsd_version
     values: list[Any]
     try:
-        values = [get_double(self.string_value(x), xsd_version)
-                  if isinstance(x, XPathNode) else x
-                  for x in self[0].select_flatten(context)]
+        if self.parser.version == '1.0':
+            values = [get_double(self.string_value(x), xsd_version)
+                      if isinstance(x, XPathNode) else x
+                      for x in self[0].select_flatten(context)]
+        else:
+            # The argument is atomized: typed nodes give their typed values
+            values = [get_double(x.value, xsd_version) if isinstance(x, UntypedAtomic) else x
+                      for x in self[0].atomization(context)]
     except (TypeError, ValueError):
         if self.parser.version == '1.0':
             return math.nan
@@ -501,7 +506,16 @@ def evaluate__round(self: XPathFunction, context: ta.ContextType = None) -> ta.O
     if arg is None:
         return math.nan if self.parser.version == '1.0' else []
     elif isinstance(arg, XPathNode) or self.parser.compatibility_mode:
-        arg = self.number_value(arg)
+        typed_value = None
+        if isinstance(arg, XPathNode) and self.parser.version != '1.0' \
+                and not self.parser.compatibility_mode:
+            typed_value = self.data_value(arg)
+
+        if isinstance(typed_value, (int, float, decimal.Decimal)) \
+                and not isinstance(typed_value, bool):
+            arg = typed_value  # a typed node: the function is applied to its typed value
+        else:
+            arg = self.number_value(arg)
 
     if isinstance(arg, float) and (math.isnan(arg) or math.isinf(arg)):
         return arg
